@@ -448,6 +448,53 @@ func ruleOverflowCarry(c *Ctx) {
 	c.Floor(rule, 1, "logical reset with carry (the overflow fallback of the estimate)")
 }
 
+// ruleOverflowVetted: the value proposed to the local allocators has passed the
+// 18-bit overflow test *after* its last extension. Between the last additive
+// change of the estimate's logical part (or the adoption of a collected
+// maximum) and the next SyncMaxTS there is a precheckLogical call — or the
+// fallback that sets the logical part to the plain count.
+func ruleOverflowVetted(c *Ctx) {
+	P := c.P
+	const tso = "server/tso"
+	rule := c.Prop + "/overflow-carry"
+	pb := "github.com/pingcap/kvproto/pkg/pdpb"
+	logical := P.Field(pb, "Timestamp", "Logical")
+	getLogical := F(P.Method(pb, "Timestamp", "GetLogical"))
+	gen := P.Method(tso, "GlobalTSOAllocator", "GenerateTSO")
+	pre := F(P.Method(tso, "GlobalTSOAllocator", "precheckLogical"))
+	est := F(P.Method(tso, "GlobalTSOAllocator", "estimateMaxTS"))
+	syncMax := F(P.Method(tso, "GlobalTSOAllocator", "SyncMaxTS"))
+	viaPointer := func(addr ssa.Value) bool {
+		_, isLocal := baseOf(addr).(*ssa.Alloc)
+		return !isLocal
+	}
+	extends := func(x ssa.Instruction) bool {
+		st, ok := x.(*ssa.Store)
+		if !ok || !viaPointer(st.Addr) {
+			return false
+		}
+		if fieldOfAddr(st.Addr) == logical {
+			return derivesFrom(st.Val, orPred(loadOfField(logical), resultOfCall(getLogical)), 6)
+		}
+		// *estimate = collected maximum
+		if _, isFA := st.Addr.(*ssa.FieldAddr); !isFA {
+			if n := namedOf(st.Val.Type()); n != nil && n.Obj().Name() == "Timestamp" {
+				return true
+			}
+		}
+		return false
+	}
+	vetted := &calledEv{name: "overflow test (or reset to the plain count) since the last extension", reset: extends, match: func(x ssa.Instruction) bool {
+		if instrCallMatcher(pre, est)(x) {
+			return true
+		}
+		st, ok := x.(*ssa.Store)
+		return ok && viaPointer(st.Addr) && fieldOfAddr(st.Addr) == logical && !derivesFrom(st.Val, orPred(loadOfField(logical), resultOfCall(getLogical)), 6)
+	}}
+	c.need(rule, gen, "call SyncMaxTS", instrCallMatcher(syncMax), []Ev{vetted}, all,
+		"the estimate handed to the local allocators passed the overflow test after its logical part was last extended")
+}
+
 func ruleSuffixBitsReported(c *Ctx) {
 	P := c.P
 	const tso = "server/tso"
@@ -535,7 +582,7 @@ func init() {
 		c.Group("C05/suffix", "suffix width never shrinks; a suffix is create-if-absent, existing ones are returned, new ones are max+1, only the leader assigns", func() { ruleSuffix(c); ruleFollowerSuffixRefresh(c) })
 		c.Group("C05/local-leader-sync", "a new local allocator leader synchronises (Initialize, WriteTSO(MaxTs), suffix width) before it is enabled", func() { ruleLocalLeaderSync(c); ruleCampaignGate(c) })
 		c.Group("C05/estimate-validated", "the global allocator validates its estimate before writing it; the local side bumps an equal maximum and never reports a failed write as synced", func() { ruleGlobalSettingPhase(c); ruleAllKnownDCsSynced(c) })
-		c.Group("C05/overflow-carry", "when the estimate's logical part overflows it is reset only together with an advance of its physical part", func() { ruleOverflowCarry(c) })
+		c.Group("C05/overflow-carry", "when the estimate's logical part overflows it is reset only together with an advance of its physical part", func() { ruleOverflowCarry(c); ruleOverflowVetted(c) })
 		c.Group("C05/suffix-bits-reported", "the suffix width reported with a timestamp is the width used to differentiate it, computed from the largest suffix in use", func() { ruleSuffixBitsReported(c) })
 		c.Group("C05/global-generate", "(shared with C01) a global timestamp is returned only after ok(SyncMaxTS), pre-check and a post-write leadership check", func() { ruleGlobalGenerate(c) })
 		c.Group("C05/getTS", "(shared with C01) overflow and lease guards of the local path", func() { ruleGetTS(c) })
